@@ -54,7 +54,7 @@ def clause_props(name):
         return {'C13'}
     if 'C02-' in name:
         return {'C02'}
-    if 'NoPoison' in name:
+    if 'NoPoison' in name or 'C05-' in name:
         return {'C02', 'C05'}
     if 'dict.' in name and any(('dict.' + k) in name for k in STATS):
         return {'C18'}
@@ -136,13 +136,17 @@ def timer_units(props):
     return units
 
 
-def rx_units(props=ALL_SESSION_PROPS + ('C04', 'C05', 'C10'), rows=None):
+def rx_units(props=ALL_SESSION_PROPS + ('C04', 'C05', 'C10'), rows=None, caps_variants=False):
     from contracts import protocol_rx as RX
     units = []
 
     def b(it, name):
         p = it.p
-        S = Session(it, with_protocol=True, peer_id_fork=(name in ('_open_received', 'parse_buffer')))
+        cv = None
+        if caps_variants and name == '_open_received':
+            cv = caps_variant(it)
+            cv['remote'] = {}
+        S = Session(it, with_protocol=True, peer_id_fork=(name in ('_open_received', 'parse_buffer')), concrete_caps=cv)
         if rows is not None and rows.get(name) is not None:
             p.assume(rows[name](S))
             if not p.check_feasible_now():
@@ -267,7 +271,8 @@ def peering_units(props=ALL_SESSION_PROPS + ('C10',)):
         def b(it, name=name, recv=recv):
             p = it.p
             wp = True if recv == 'protocol' else p.branch(z3.Bool('with_protocol'))
-            S = Session(it, with_protocol=wp)
+            S = Session(it, with_protocol=wp, bgp_id_none=(name == 'connectionMade' and p.branch(z3.Bool('bgp_id_unset'))),
+                        concrete_caps=(caps_variant(it) if name == 'connectionMade' else None))
             roots = [S.fsm, S.peering, it.prog.models.conf, S.ghost] + ([S.P] if S.P else [])
             r = {'fsm': S.fsm, 'peering': S.peering, 'protocol': S.P}[recv]
             args = [r]
@@ -349,4 +354,39 @@ def tx_units(props=('C16', 'C18')):
         return u
     for q, spec in TX.TX_SPECS.items():
         units.append(mk(q, spec))
+    return units
+
+
+def caps_variant(it):
+    """running-config capability sets for the units that build the OPEN: remote set empty or left over from an
+    earlier session (connectionMade must reset it), local set in three shapes"""
+    k = it.p.choose(3, 'caps-variant')
+    local = [
+        {'afi_safi': [(1, 1)], 'four_bytes_as': True, 'route_refresh': True, 'cisco_route_refresh': True,
+         'enhanced_route_refresh': True, 'graceful_restart': False, 'cisco_multi_session': True, 'add_path': None},
+        {'afi_safi': [(1, 1), (1, 128)], 'four_bytes_as': False, 'route_refresh': True, 'cisco_route_refresh': False,
+         'enhanced_route_refresh': False, 'graceful_restart': False, 'cisco_multi_session': False, 'add_path': 'ipv4_both',
+         'ext_nexthop': [{'afi_safi': [1, 128], 'nexthop_afi': 2}]},
+        {'afi_safi': [(2, 1)], 'four_bytes_as': True, 'route_refresh': False, 'cisco_route_refresh': False,
+         'enhanced_route_refresh': False, 'graceful_restart': False, 'cisco_multi_session': False, 'add_path': 'ipv4_send'},
+    ][k]
+    remote = {} if it.p.branch(z3.Bool('remote_caps_empty')) else {'four_bytes_as': True, 'afi_safi': [(1, 1)], 'route_refresh': True}
+    return {'local': local, 'remote': remote}
+
+
+def open_units(props=('C05', 'C01', 'C18')):
+    """BGP.send_open and BGP.capability_negotiate on their real bodies (Open.construct executed for real)"""
+    from contracts import open_send as OSD
+    from contracts.timer import wrap
+    from props.common import session_vis
+    units = []
+    for name, spec in (('send_open', session_vis(wrap(OSD.p_send_open))), ('capability_negotiate', wrap(OSD.p_capability_negotiate))):
+        def b(it, name=name):
+            cv = caps_variant(it)
+            cv['remote'] = {}
+            S = Session(it, with_protocol=True, concrete_caps=cv)
+            it.p.assume(S.H.t == S.cfgH.t)
+            return [S.fsm, S.peering, it.prog.models.conf, S.P], [S.P], {}, S
+        units.append(Unit('BGP.' + name, CS.BGP + name, b, spec, kind='session', receiver='protocol', method=name,
+                          props=props, clause_props=clause_props))
     return units
